@@ -72,8 +72,10 @@ def module_for(name, base, L, c, tail_lines):
     return {name + ".tla": body}, cfg
 
 
-def run_mc(chk, name, L, c, expect=None, timeout=900, dump=None, workers=None):
-    files, cfg = module_for("MCgen_BBMD", "BBMD", L, c, ["SPECIFICATION Spec"] + ["INVARIANT " + i for i in INVS] + ["CHECK_DEADLOCK FALSE"])
+def run_mc(chk, name, L, c, expect=None, timeout=900, dump=None, workers=None, invs=True):
+    """invs=False: only enumerate the state graph (R: the model then carries the deviation flags of the tree under test,
+    with which the invariants are not expected to hold)"""
+    files, cfg = module_for("MCgen_BBMD", "BBMD", L, c, ["SPECIFICATION Spec"] + ["INVARIANT " + i for i in (INVS if invs else INVS[:1])] + ["CHECK_DEADLOCK FALSE"])
     res = tlc.run_tlc("MCgen_BBMD", cfg_text=cfg, files=files, timeout=timeout, name="BBMD/" + name, dump_dot=dump, workers=workers)
     if expect is None:
         chk.tlc(res)
@@ -718,7 +720,7 @@ def graph_scripts(chk, name, L, c, rng, limit=None, workers=None):
     wd = tlc.workdir("dot")
     dot = os.path.join(wd, "g")
     try:
-        run_mc(chk, name, L, c, dump=dot, workers=workers)
+        run_mc(chk, name, L, c, dump=dot, workers=workers, invs=False)
         nodes, edges, init = parse_dot_acts(dot + ".dot")
     finally:
         shutil.rmtree(wd, ignore_errors=True)
